@@ -913,6 +913,7 @@ func genC02(r *simrt.Rand, tier string, idx uint64) Workload {
 		// never the janitor (its purges are not calls of the program); half of the cache programs are
 		// timed: entries with finite expirations, simulated time passing, expired-but-unpurged entries
 		w.Cfg = []int{0, 0, cacheTimed, cacheTimed | cachePreAged}[r.Intn(4)]
+		w.Cfg |= []int{0, 0, 1, 2, 3}[r.Intn(5)] << 3 // value type: int, string, []byte, struct
 	}
 	// alphabet: 2-3 values, collisions on purpose (thorough: sometimes 4-5)
 	alpha := 2 + r.Intn(2)
